@@ -291,7 +291,24 @@ CLASS_HOME = {'WireVector': 'pyrtl.wire', 'Input': 'pyrtl.wire', 'Output': 'pyrt
               'MemBlock': 'pyrtl.memory', 'RomBlock': 'pyrtl.memory', 'LogicNet': 'pyrtl.core',
               'Block': 'pyrtl.core', 'PostSynthBlock': 'pyrtl.core',
               'Simulation': 'pyrtl.simulation', 'FastSimulation': 'pyrtl.simulation',
-              'CompiledSimulation': 'pyrtl.compilesim', 'SimulationTrace': 'pyrtl.simulation'}
+              'CompiledSimulation': 'pyrtl.compilesim', 'SimulationTrace': 'pyrtl.simulation',
+              'Matrix': 'pyrtl.rtllib.matrix'}
+# classes whose `@x.setter` methods are executed on attribute stores (elsewhere stores write the field)
+SETTER_CLASSES = {'Matrix'}
+
+
+def find_setter(cls, name):
+    home = CLASS_HOME.get(cls)
+    if home is None:
+        return None
+    m = get_module(home)
+    if cls not in m.classes:
+        return None
+    for node in m.class_members(cls)[0].get(name, []):
+        for d in node.decorator_list:
+            if isinstance(d, ast.Attribute) and d.attr == 'setter':
+                return FuncVal(node, None, m, '%s.%s[setter]' % (cls, name), cls=cls)
+    return None
 
 
 def find_method(cls, name):
@@ -827,6 +844,12 @@ class Interp(object):
                 h = self.hooks.get('setattr')
                 if h is not None and h(self, o, t.attr, v):
                     return
+                if o.cls in SETTER_CLASSES:
+                    fs = find_setter(o.cls, t.attr)
+                    if fs is not None:
+                        self.st.inlined.add(fs.qualname)
+                        self.call_function(fs, [v], {}, selfobj=o)
+                        return
                 o.fields[t.attr] = v
             else:
                 raise Unsupported('attribute store on %r' % (o,))
